@@ -189,7 +189,7 @@ type Option struct {
 }
 
 func (o *Option) Len() uint16 {
-	return uint16(o.Length + 2)
+	return uint16(o.Length) + 2
 }
 
 func (o *Option) MarshalBinary() (data []byte, err error) {
@@ -204,6 +204,9 @@ func (o *Option) MarshalBinary() (data []byte, err error) {
 }
 
 func (o *Option) UnmarshalBinary(data []byte) error {
+	if len(data) < 2 {
+		return errors.New("The []byte is too short to unmarshal an Option header.")
+	}
 	n := 0
 	o.Type = data[n]
 	n += 1
@@ -224,7 +227,7 @@ type HopByHopHeader struct {
 }
 
 func (h *HopByHopHeader) Len() uint16 {
-	return 8 * uint16(h.HEL+1)
+	return 8 * (uint16(h.HEL) + 1)
 }
 
 func (h *HopByHopHeader) MarshalBinary() (data []byte, err error) {
@@ -246,11 +249,14 @@ func (h *HopByHopHeader) MarshalBinary() (data []byte, err error) {
 }
 
 func (h *HopByHopHeader) UnmarshalBinary(data []byte) error {
+	if len(data) < 2 {
+		return errors.New("The []byte is too short to unmarshal a HopByHopHeader.")
+	}
 	n := 0
 	h.NextHeader = data[n]
 	n += 1
 	h.HEL = data[n]
-	if len(data) < 8*int(h.HEL+1) {
+	if len(data) < 8*(int(h.HEL)+1) {
 		return errors.New("The []byte is too short to unmarshal a full HopByHopHeader message.")
 	}
 	n += 1
@@ -279,7 +285,7 @@ type RoutingHeader struct {
 }
 
 func (h *RoutingHeader) Len() uint16 {
-	return 8 * uint16(h.HEL+1)
+	return 8 * (uint16(h.HEL) + 1)
 }
 
 func (h *RoutingHeader) MarshalBinary() (data []byte, err error) {
@@ -298,11 +304,14 @@ func (h *RoutingHeader) MarshalBinary() (data []byte, err error) {
 }
 
 func (h *RoutingHeader) UnmarshalBinary(data []byte) error {
+	if len(data) < 4 {
+		return errors.New("The []byte is too short to unmarshal a RoutingHeader.")
+	}
 	n := 0
 	h.NextHeader = data[n]
 	n += 1
 	h.HEL = data[n]
-	if len(data) < 8*int(h.HEL+1) {
+	if len(data) < 8*(int(h.HEL)+1) {
 		return errors.New("The []byte is too short to unmarshal a full RoutingHeader message.")
 	}
 	n += 1
